@@ -85,11 +85,11 @@ Proof.
     split; [constructor; auto|exact I2].
 Qed.
 
-(* export_terminates_and_releases for the code with fixes/C14-unlock.diff applied *)
+(* export_terminates_and_releases for the code as it is (since 7ccd103: unlock on both early returns) *)
 Theorem export_fixed_ok c ops : Forall export_fine (run_outs true c ops).
 Proof. apply run_export_fine; [reflexivity|left; reflexivity]. Qed.
 
-(* ... and what is true of the code as it is *)
+(* ... and what was true of the code before that fix *)
 Theorem export_partial_ok c ops :
   forallb (fun u => negb (is_partial u)) (run_outs false c ops) = true ->
   Forall export_fine (run_outs false c ops).
@@ -131,9 +131,10 @@ Qed.
 Definition wk : bytes := [107].
 Definition wc : cfg := {| c_maxio := 1; c_fsz := 64; c_embedded := false |}.
 
-(* tx 1 = (70 bytes, empty value), tx 2 = 100 bytes, TruncateUptoTx(2) deletes chunk 0 and with it
-   the first value of tx 1; ExportTx(1) returns "partially truncated transaction" holding the
-   mutex, the next ExportTx waits forever *)
+(* the defect fixed by 7ccd103, on the model of the code before it (fixed = false): tx 1 = (70
+   bytes, empty value), tx 2 = 100 bytes, TruncateUptoTx(2) deletes chunk 0 and with it the first
+   value of tx 1; ExportTx(1) returns "partially truncated transaction" holding the mutex, the
+   next ExportTx waits forever *)
 Definition w_export : list op :=
   [OAppend 1 1 [(wk, vpat 1 70); (wk, [])]; OCommit 1;
    OAppend 2 1 [(wk, vpat 3 100)]; OCommit 2;
@@ -159,9 +160,9 @@ Definition w_race : list op :=
 
 Theorem race_refuted :
   exists c ops id tx e, cfg_ok c = true /\ ops_bytes ops < two55 /\
-    s_cut (run_state false c ops) < id /\
-    get_tx (s_txs (run_state false c ops)) id = Some tx /\ In e tx /\
-    read_entry c (run_state false c ops) e = RdEOF.
+    s_cut (run_state true c ops) < id /\
+    get_tx (s_txs (run_state true c ops)) id = Some tx /\ In e tx /\
+    read_entry c (run_state true c ops) e = RdEOF.
 Proof.
   exists wc, w_race, 3.
   eexists. eexists. vm_compute. repeat split; auto; try discriminate.
@@ -170,7 +171,7 @@ Qed.
 (* the premises of the positive theorems are satisfiable by a run with out-of-order placement,
    an empty value, truncation and export *)
 Example premises_sat :
-  cfg_ok wc = true /\ ops_bytes w_export < two55 /\ quiescent false wc w_export = true /\
-  s_cut (run_state false wc w_export) = 2 /\
-  exists tx, get_tx (s_txs (run_state false wc w_export)) 2 = Some tx /\ tx <> [].
+  cfg_ok wc = true /\ ops_bytes w_export < two55 /\ quiescent true wc w_export = true /\
+  s_cut (run_state true wc w_export) = 2 /\
+  exists tx, get_tx (s_txs (run_state true wc w_export)) 2 = Some tx /\ tx <> [].
 Proof. vm_compute. repeat split; auto. eexists; split; [reflexivity|discriminate]. Qed.
